@@ -5,8 +5,10 @@
    [strict_parse]/[strict_doc] is the W3C N-Triples/N-Quads EBNF transcribed in
    Grammar/Model.v Part A; [nt_row]/[nq_row]/[model_doc] is rdflib's writer
    (Part B); [wf_triple] is what rdflib itself accepts when serialising, with
-   absolute IRIs; [row_kf] names the four regions where rdflib's own checks are
-   narrower than the grammar (findings C05a-d). *)
+   absolute IRIs; [row_kf] names the one region left where rdflib's own checks are
+   narrower than the grammar (finding C05c: blank node identifiers that are not
+   BLANK_NODE_LABELs); C05a, C05b, C05d have been repaired in the code and their
+   trigger hypotheses are gone. *)
 From RV Require Import Grammar.Model Grammar.Proofs Grammar.Reader Grammar.ReaderProofs.
 Local Open Scope N_scope.
 
@@ -48,28 +50,34 @@ Theorem C05_nt_output_valid_refuted :
   ~ (forall t, wf_triple t = true ->
        exists l, nt_row t = Some l /\ strict_parse false l = Some (t, None)).
 Proof.
-  intro H. destruct w_ctrl_refutes as [[Hwf [l [Hl Hn]]] _].
+  intro H. destruct w_bn_refutes as [[Hwf [l [Hl Hn]]] _].
   destruct (H _ Hwf) as [l' [Hl' Hp]]. rewrite Hl in Hl'. inversion Hl'; subst. contradiction.
 Qed.
 Print Assumptions C05_nt_output_valid_refuted.
 
-(* one witness per finding, each inside its own trigger region *)
-Theorem C05a_control_char_in_iri_refuted : refutes w_ctrl /\ row_kf false (w_ctrl, Iri []) = 1.
-Proof. exact w_ctrl_refutes. Qed.
-Print Assumptions C05a_control_char_in_iri_refuted.
-Theorem C05b_datatype_iri_unchecked_refuted : refutes w_dt /\ row_kf false (w_dt, Iri []) = 2.
-Proof. exact w_dt_refutes. Qed.
-Print Assumptions C05b_datatype_iri_unchecked_refuted.
-Theorem C05b_datatype_iri_other_meaning_refuted : wf_triple w_dt2 = true /\ exists l t',
-  nt_row w_dt2 = Some l /\ strict_parse false l = Some (t', None) /\ t' <> w_dt2.
-Proof. exact w_dt2_other_meaning. Qed.
-Print Assumptions C05b_datatype_iri_other_meaning_refuted.
+(* the witness of the remaining finding, inside its trigger region *)
 Theorem C05c_bnode_label_refuted : refutes w_bn /\ row_kf false (w_bn, Iri []) = 3.
 Proof. exact w_bn_refutes. Qed.
 Print Assumptions C05c_bnode_label_refuted.
-Theorem C05d_langtag_newline_refuted : refutes w_lang /\ row_kf false (w_lang, Iri []) = 4.
-Proof. exact w_lang_refutes. Qed.
-Print Assumptions C05d_langtag_newline_refuted.
+
+(* with no blank node at all there is no hypothesis beyond well-formedness *)
+Theorem C05_nt_output_valid_ground : forall s p o,
+  wf_triple (Iri s, p, o) = true -> (forall b, o <> Bn b) ->
+  exists l, nt_row (Iri s, p, o) = Some l /\ strict_parse false l = Some ((Iri s, p, o), None).
+Proof.
+  intros s p o Hwf Hb. apply (C05_nt_output_valid _ (Iri [])); [exact Hwf|].
+  destruct (wf_triple_parts _ _ _ Hwf) as [_ [[x [Ep _]] _]]. subst p.
+  unfold row_kf. cbn [fst snd].
+  destruct o as [y|y|y k']; cbn [term_kf]; try reflexivity. exfalso. eapply Hb. reflexivity.
+Qed.
+Print Assumptions C05_nt_output_valid_ground.
+
+(* the former witnesses of C05a (control character in an IRI), C05b (datatype IRI never checked) and C05d
+   (language tag with a final line feed) are refused by the repaired writer / constructor *)
+Theorem C05_repaired_witnesses_refused :
+  nt_row w_ctrl = None /\ nt_row w_dt = None /\ nt_row w_dt2 = None /\ nt_row w_lang = None.
+Proof. exact repaired_witnesses_refused. Qed.
+Print Assumptions C05_repaired_witnesses_refused.
 
 (* what the correspondence check evaluates on the implementation's answers is
    satisfied by the model on every case outside the triggers (well-formedness is
@@ -106,10 +114,10 @@ Theorem C05_quote_encode_one_pass : forall s, quote_encode s = 34 :: flat_map es
 Proof. exact quote_encode_one_pass. Qed.
 Print Assumptions C05_quote_encode_one_pass.
 
-(* _is_valid_uri (table reflected from the source on every run) plus "no control
-   character" is exactly enough for the IRIREF production *)
+(* _is_valid_uri (table reflected from the source on every run) is exactly enough for the
+   IRIREF production; no control-character hypothesis any more (ffbc1d81) *)
 Theorem C05_valid_uri_is_iriref : forall s,
-  valid_uri s = true -> has_ctrl s = false -> forallb iri_plain s = true.
+  valid_uri s = true -> forallb iri_plain s = true.
 Proof. exact valid_uri_iri_ok. Qed.
 Print Assumptions C05_valid_uri_is_iriref.
 
@@ -136,11 +144,11 @@ Theorem C05_reader_echar_table_partial : forall e, rd_echar e = echar e.
 Proof. exact rd_echar_eq. Qed.
 Print Assumptions C05_reader_echar_table_partial.
 
-(* the reader is NOT complete on the legal language: witness for finding C05e *)
+(* the reader is NOT complete on the legal language: witness for finding C05f *)
 Theorem C05_nt_reads_legal_refuted : exists d qs,
   strict_doc false d = Some qs /\ rd_doc false d = None.
 Proof.
-  exists [60;97;58;115;62;60;97;58;112;62;60;97;58;111;62;46]. eexists.
+  exists [95;58;233;32;60;97;58;112;62;32;60;97;58;111;62;32;46]. eexists.
   split; [vm_compute; reflexivity|vm_compute; reflexivity].
 Qed.
 Print Assumptions C05_nt_reads_legal_refuted.
